@@ -182,12 +182,12 @@ def install(sfp_module):
 # -------------------------------------------------------------------------------------------------
 # event delivery helpers (used by the driver's pump)
 # -------------------------------------------------------------------------------------------------
-def make_mouse(canvas, name, px, py, button=None, mods=(), step=0):
+def make_mouse(canvas, name, px, py, button=None, mods=(), step=0, dblclick=False):
     kw = {}
     try:
-        ev = MouseEvent(name, canvas, px, py, button=button, modifiers=frozenset(mods), step=step)
+        ev = MouseEvent(name, canvas, px, py, button=button, modifiers=frozenset(mods), step=step, dblclick=dblclick)
     except TypeError:  # older signature without modifiers
-        ev = MouseEvent(name, canvas, px, py, button=button, step=step, **kw)
+        ev = MouseEvent(name, canvas, px, py, button=button, step=step, dblclick=dblclick, **kw)
     return ev
 
 
